@@ -369,6 +369,9 @@ func (w *World) apply(kind, arg string) bool {
 
 var extraLetters = map[string]func(w *World, arg string) bool{}
 
+// RegisterLetter lets engines add letters of their own.
+func RegisterLetter(kind string, f func(w *World, arg string) bool) { extraLetters[kind] = f }
+
 // publish: arg is a comma separated list of key/dt/val specs.
 func (w *World) publish(arg string) bool {
 	var specs []string
